@@ -100,7 +100,38 @@ def lattice_streams(ctx, cls, salt):
     for fam, sizes in (('supported', sizes_for(ctx, cls, salt)), ('outside-family', unsupported_sizes(cls))):
         if sizes:
             out.append(one_stream(ctx, cls, fam, sizes))
+    out.append(rank_stream(ctx, cls, sizes_for(ctx, cls, salt)))
     return out
+
+
+RANK_THEOREM = {'Color488Code': 'rank_family: X and Z generator of every face of one period but the octagons (0,4), (4,0)',
+                'Color666ToricCode': 'rank_family: X and Z generator of every face but (2,2), (5,4)',
+                'Color666PlanarCode': 'generators_independent: every stabilizer location'}
+
+
+def rank_stream(ctx, cls, sizes):
+    """`lat-<Class>-rank-family`: the explicit family of n - k stabilizer locations the all-sizes rank
+    theorem of the class speaks about (printed by the model driver, op `rankfamily`) evaluated on the
+    IMPLEMENTATION's parity-check matrix: all members distinct stabilizer locations, n - k of them,
+    GF(2) rank of the selected rows n - k (family sizes only; the seam copies of Color488Code /
+    Color666ToricCode are locations of the implementation too and are not in the family)"""
+    import panqec.codes as C
+    from harness.lat_cubic3d import rank_post
+    klass = getattr(C, cls)
+    s = Stream(f'lat-{cls}-rank-family', post=rank_post(klass))
+    for size in sizes:
+        if not K.supported(cls, tuple(size)):
+            continue
+        label = f'{cls}{tuple(size)}'
+        try:
+            code = klass(*size)
+            nk = guarded(lambda: code.n - code.k)
+        except Exception:  # noqa  (a construction failure is reported by the lattice-model stream)
+            continue
+        s.add(f'lat {cls} {size[0]} {size[1]} rankfamily', f'members {nk} rank {nk}',
+              {'code': label, 'what': f'independent family of n-k generators (theorem {RANK_THEOREM[cls]}) '
+               'evaluated on stabilizer_matrix'}, tag='size>5' if max(size) > 5 else 'size<=5')
+    return s.run()
 
 
 def one_stream(ctx, cls, fam, sizes):
